@@ -29,6 +29,21 @@ REPLAY_PY = "/venv/bin/python"
 MAX_REPLAYS = int(os.environ.get("PYVC_MAX_REPLAYS", "4"))
 
 
+def baseline_path(pid):
+    return os.path.join(VERIF, "baseline", f"{pid}.json")
+
+
+def load_baseline(pid):
+    """idents of the obligations discharged on the pinned tree (committed;
+    written by --write-baseline).  An obligation in this set that can no
+    longer be discharged is reported as a violation even when the solver
+    gives no counterexample (no-failing-input-found)."""
+    try:
+        return set(json.load(open(baseline_path(pid)))["discharged"])
+    except Exception:
+        return set()
+
+
 def load_known():
     out = []
     if not os.path.exists(KNOWN):
@@ -75,11 +90,29 @@ def solve_one(idx):
     fi, oi = _GEN["index"][idx]
     r = _GEN["results"][fi]
     o = r.obls[oi]
+    # once several counterexamples are in hand the remaining obligations
+    # get a small budget (bounds the run time on a broken tree; irrelevant
+    # on a tree where everything discharges)
+    hurry = _GEN["found"].value >= 3
     try:
-        discharge([o], r.timeout_ms, use_cvc5=True)
+        discharge([o], 2500 if hurry else r.timeout_ms,
+                  use_cvc5=not hurry, refute=not hurry)
     except Exception as e:
         o.status, o.note = "unknown", f"solver error: {e!r}"
+    ident = f"{r.contract.func}::{stable_name(o)}"
+    in_base = ident in _GEN.get("baseline", ())
+    if o.status == "unknown" and in_base and not hurry:
+        # an obligation that is discharged on the pinned tree: give it the
+        # thorough budget before it is reported as no longer provable
+        try:
+            discharge([o], r.timeout_ms * 4, use_cvc5=True, refute=False)
+        except Exception:
+            pass
+    if o.status == "refuted":
+        with _GEN["found"].get_lock():
+            _GEN["found"].value += 1
     d = {"name": o.name, "stable": stable_name(o), "kind": o.kind,
+         "in_baseline": in_base,
          "line": o.lineno, "status": o.status, "solver": o.solver,
          "time": round(o.time, 4), "note": o.note,
          "path": "".join("T" if b else "F" for b in o.path)}
@@ -104,6 +137,8 @@ def verify_all(cons, tier, pid, jobs):
     index = [(fi, oi) for fi, r in enumerate(results)
              for oi in range(len(r.obls))]
     _GEN["results"], _GEN["index"] = results, index
+    _GEN["found"] = mp.Value("i", 0)
+    _GEN["baseline"] = load_baseline(pid)
     solved = {}
     t1 = time.time()
     if index:
@@ -156,6 +191,7 @@ def main(argv=None):
     ap.add_argument("--jobs", type=int, default=16)
     ap.add_argument("-v", action="store_true")
     ap.add_argument("--only")
+    ap.add_argument("--write-baseline", action="store_true")
     a = ap.parse_args(argv)
     if a.tier not in ("quick", "thorough"):
         a.tier = "quick"
@@ -208,6 +244,14 @@ def report(a, seed, cons, results, extra, t_start):
                 discharged += 1
                 by_backend[o["solver"]] = by_backend.get(o["solver"], 0) + 1
             elif o["status"] == "refuted":
+                refuted.append((r, o, ident))
+            elif o.get("in_baseline"):
+                # provable on the pinned tree, not provable now, no model:
+                # a failed obligation without a failing input
+                o = dict(o)
+                o["detail"] = ("obligation is discharged on the pinned tree "
+                               "(baseline/%s.json) but the solvers no "
+                               "longer discharge it: %s" % (pid, o["note"]))
                 refuted.append((r, o, ident))
             else:
                 undecided.append(f"{ident}: solver {o['status']} "
@@ -343,6 +387,20 @@ def report(a, seed, cons, results, extra, t_start):
           f"discharged={discharged} refuted={len(refuted)} "
           f"known={len(known_hit)} undecided={len(undecided)} "
           f"errors={len(errors)} backends={by_backend} wall={wall:.1f}s")
+    if a.write_baseline:
+        if status == 0 and not a.only:
+            names = set()
+            for r in results:
+                for o in r["obls"]:
+                    if o["status"] == "discharged":
+                        names.add(f"{r['func']}::{o['stable']}")
+            os.makedirs(os.path.join(VERIF, "baseline"), exist_ok=True)
+            with open(baseline_path(pid), "w") as fh:
+                json.dump({"property": pid, "discharged": sorted(names)},
+                          fh, indent=0)
+            print(f"baseline written: {len(names)} obligation idents")
+        else:
+            print("baseline NOT written (check did not pass cleanly)")
     if a.v or status in (2, 3):
         for u in undecided[:40]:
             print("  UNDECIDED", u)
